@@ -4,13 +4,14 @@ DEFAULT settings, as coded.
 
 Core Lean only (no Mathlib): linked into the native driver `drv_rrtstar`.
 
-Options covered (the defaults of RRTstar.h): `useKNearest_ = true` (k = ceil(k_rrt * log(n+1)) nearest,
-then the `distance < maxDistance_` filter before every collision check), `delayCC_ = true` (candidates
-sorted by cost, collision-checked in that order until one is valid), `useTreePruning_ = false`,
+Options covered: `useKNearest_ = true` (k = ceil(k_rrt * log(n+1)) nearest,
+then the `distance < maxDistance_` filter before every collision check), `delayCC_ = true` (the default: candidates
+sorted by cost, collision-checked in that order until one is valid) AND `delayCC_ = false` (round 10: the classic
+choose-parent loop over the neighbourhood in `nearestK` order, `Space.delayCC`), `useTreePruning_ = false`,
 `useInformedSampling_ = useRejectionSampling_ = useNewStateRejection_ = useOrderedSampling_ = false`,
 no intermediate-solution callback, one start state, a sampleable goal (`GoalState`:
 `maxSampleCount() = 1`, `canSample()`), `NearestNeighborsLinear`.
-NOT covered: r-disc neighbourhoods, `delayCC_ = false`, pruning, informed / rejection / ordered sampling,
+NOT covered: r-disc neighbourhoods, pruning, informed / rejection / ordered sampling,
 new-state rejection, the intermediate solution callback, several start states added later.
 
 Generic in the state type `σ`, the cost type `α` (objective = abstract `(identity, infinite, combine,
@@ -68,6 +69,8 @@ structure Space (σ δ : Type) where
   kNearest : Nat → Nat
   /-- `+inf`, the initial `approxDist` -/
   dinf : δ
+  /-- `delayCC_` (`setDelayCC`, parameter `delay_collision_checking`; default true) -/
+  delayCC : Bool := true
 
 /-- `RRTstar::Motion` -/
 structure Motion (σ α : Type) where
@@ -98,6 +101,9 @@ structure St (σ α δ : Type) where
   tie : Bool := false
   starved : Bool := false
   fuelOut : Bool := false
+  /-- ghost (classic choose-parent loop only): some pass cached `motion->incCost` for `nmotion` AFTER a better parent had
+  already replaced it (see `classicStep`); sticky. -/
+  staleInc : Bool := false
 
 /-- `setup()`: `bestCost_ = opt_->infiniteCost()`. -/
 def St.init (o : Obj σ α) (sp : Space σ δ) : St σ α δ :=
@@ -410,9 +416,65 @@ def insertMotion (s1 : St σ α δ) (dstate : σ) (par : Nat) (cost inc : α) (t
   { s1 with motions := (s1.motions.push newMotion).modify par (fun m => { m with children := m.children ++ [s1.motions.size] }),
             tie := s1.tie || tie }
 
+/-! ### the classic choose-parent loop (`delayCC_ = false`)
+
+```
+motion->incCost = motionCost(nmotion, motion); motion->cost = combine(nmotion->cost, motion->incCost);
+for i in 0..nbh.size():
+  if nbh[i] != nmotion:
+    incCosts[i] = motionCost(nbh[i], motion); costs[i] = combine(nbh[i]->cost, incCosts[i]);
+    if better(costs[i], motion->cost):
+      if ((!useKNearest_ || distance(nbh[i], motion) < maxDistance_) && checkMotion(nbh[i], motion))
+        { motion->incCost = incCosts[i]; motion->cost = costs[i]; motion->parent = nbh[i]; valid[i] = 1; }
+      else valid[i] = -1;
+  else { incCosts[i] = motion->incCost; costs[i] = motion->cost; valid[i] = 1; }
+```
+AS CODED: the `else` branch caches the new motion's CURRENT `incCost` — which is `motionCost(nmotion, motion)` only as
+long as no earlier neighbour has replaced `nmotion` as the parent.  `stale` records when that was not so. -/
+
+/-- the loop variables: `motion->parent/incCost/cost`, `valid[]`, `incCosts[0..i)`, the planner state, the ghost. -/
+structure Classic (σ α δ : Type) where
+  par : Nat
+  inc : α
+  cost : α
+  valid : List (Nat × Int)
+  incs : List α
+  st : St σ α δ
+  stale : Bool
+
+/-- one pass of the classic loop for neighbour position `p.1`, motion index `p.2`. -/
+def classicStep (o : Obj σ α) (sp : Space σ δ) (ms : Array (Motion σ α)) (nmotion : Nat) (x : σ)
+    (a : Classic σ α δ) (p : Nat × Nat) : Classic σ α δ :=
+  if p.2 = nmotion then
+    { a with incs := a.incs ++ [a.inc], valid := (p.1, 1) :: a.valid, stale := a.stale || decide (a.par ≠ nmotion) }
+  else
+    match ms[p.2]? with
+    | none => { a with incs := a.incs ++ [o.identity] }
+    | some m =>
+      let inc := o.motionCost m.state x
+      let cost := o.combine m.cost inc
+      if o.better cost a.cost then
+        if sp.dlt (sp.dist m.state x) sp.maxDistance then
+          match a.st.checkMotion m.state x with
+          | (true, s') => { a with par := p.2, inc := inc, cost := cost, valid := (p.1, 1) :: a.valid, incs := a.incs ++ [inc], st := s' }
+          | (false, s') => { a with valid := (p.1, -1) :: a.valid, incs := a.incs ++ [inc], st := s' }
+        else { a with valid := (p.1, -1) :: a.valid, incs := a.incs ++ [inc] }
+      else { a with incs := a.incs ++ [inc] }
+
+/-- `getNeighbors`, then the classic loop, then the insertion of the new motion under the chosen parent. -/
+def growInsertClassic (o : Obj σ α) (sp : Space σ δ) (s : St σ α δ) (nmotion : Nat) (nm : Motion σ α) (dstate : σ) :
+    Grown σ α δ :=
+  let inc0 := o.motionCost nm.state dstate
+  let nk := nearestK sp s.motions dstate (sp.kNearest s.motions.size)
+  let nbhP := (List.range nk.1.length).zip nk.1
+  let a := nbhP.foldl (classicStep o sp s.motions nmotion dstate)
+    { par := nmotion, inc := inc0, cost := o.combine nm.cost inc0, valid := [], incs := [], st := s, stale := false }
+  { st := insertMotion { a.st with staleInc := a.st.staleInc || a.stale } dstate a.par a.cost a.inc nk.2,
+    new := a.st.motions.size, valid := a.valid, incs := a.incs, nbhP := nbhP }
+
 /-- `getNeighbors`, the cost caches, the choose-parent loop (delayed collision checking) and the
 insertion of the new motion under the chosen parent. -/
-def growInsert (o : Obj σ α) (sp : Space σ δ) (s : St σ α δ) (nmotion : Nat) (nm : Motion σ α) (dstate : σ) :
+def growInsertDelayed (o : Obj σ α) (sp : Space σ δ) (s : St σ α δ) (nmotion : Nat) (nm : Motion σ α) (dstate : σ) :
     Grown σ α δ :=
   let inc0 := o.motionCost nm.state dstate
   let cost0 := o.combine nm.cost inc0
@@ -430,6 +492,11 @@ def growInsert (o : Obj σ α) (sp : Space σ δ) (s : St σ α δ) (nmotion : N
   let cp := chooseParent sp s.motions nmotion dstate cands s []
   { st := insertMotion cp.2.2 dstate (pickVal cp.1 nbh nmotion) (pickVal cp.1 costs cost0) (pickVal cp.1 incs inc0) (nk.2 || sc.2),
     new := cp.2.2.motions.size, valid := cp.2.1, incs := incs, nbhP := (List.range nbh.length).zip nbh }
+
+/-- `if (delayCC_) … else …` -/
+def growInsert (o : Obj σ α) (sp : Space σ δ) (s : St σ α δ) (nmotion : Nat) (nm : Motion σ α) (dstate : σ) :
+    Grown σ α δ :=
+  if sp.delayCC then growInsertDelayed o sp s nmotion nm dstate else growInsertClassic o sp s nmotion nm dstate
 
 /-- from `getNeighbors` to the end of the rewiring loop. Returns the state, the new motion's index and
 `checkForSolution`. -/
